@@ -24,14 +24,14 @@ Definition limits_match (act imp : limits) : bool :=
 Inductive externtype :=
 | TFunc (ps rs : list Z)
 | TTable (l : limits) (et : Z)
-| TMem (l : limits)
+| TMem (l : limits) (shared : bool)      (* threads proposal: memtype = limits + shared flag *)
 | TGlobal (mut : bool) (vt : Z).
 
 Definition extern_match (act imp : externtype) : bool :=
   match act, imp with
   | TFunc p r, TFunc p' r' => list_eqb p p' && list_eqb r r'
   | TTable l e, TTable l' e' => limits_match l l' && (e =? e')
-  | TMem l, TMem l' => limits_match l l'
+  | TMem l sh, TMem l' sh' => limits_match l l' && Bool.eqb sh sh'   (* limits match AND the shared flags are equal *)
   | TGlobal m v, TGlobal m' v' => Bool.eqb m m' && (v =? v')
   | _, _ => false
   end.
@@ -44,13 +44,14 @@ Inductive xobj :=
          (tlen : Z)                                            (* ... len(References): read by the specification only *)
 | XMem (buflen : Z) (maxN : Z)                                 (* len(Buffer), MemoryInstance.Max (normalised by the decoder) ... *)
        (mhasmax : bool) (mdecl : Z)                            (* ... the declared maximum: read by the specification only *)
+       (mshared : bool)                                        (* MemoryInstance.Shared *)
 | XGlobal (mut : bool) (vt : Z).
 
 (* the import description of the importing module (Import.DescFunc/DescTable/DescMem/DescGlobal) *)
 Inductive idesc :=
 | DFunc (ps rs : list Z)
 | DTable (min : Z) (hasmax : bool) (max : Z) (et : Z)
-| DMem (min : Z) (hasmax : bool) (max : Z)
+| DMem (min : Z) (hasmax : bool) (max : Z) (shared : bool)    (* Memory.IsShared of the import description *)
 | DGlobal (mut : bool) (vt : Z).
 
 (* Memory.Max as the binary decoder stores it: decoder.go newMemorySizer (regenerated) *)
@@ -58,7 +59,8 @@ Definition norm_max (L mn : Z) (hasmax : bool) (mx : Z) : Z :=
   let '(_, _, m) := newMemorySizer L false mn (negb hasmax) mx in m.
 
 (* error classes: 0 accepted; 1 export of another kind; 2 signature; 3 table element type; 4 minimum;
-   5 importer has a maximum, exporter has none; 6 maximum; 7 mutability; 8 value type *)
+   5 importer has a maximum, exporter has none; 6 maximum; 7 mutability; 8 value type; 9 shared flag of a memory
+   (checked last, since adbc65a) *)
 Definition code_accept (L : Z) (d : idesc) (x : xobj) : Z :=
   match d, x with
   | DFunc p r, XFunc p' r' => if list_eqb p' p && list_eqb r' r then 0 else 2
@@ -67,9 +69,10 @@ Definition code_accept (L : Z) (d : idesc) (x : xobj) : Z :=
       else if tmin <? mn then 4                               (* expected.Min > importedTable.Min: the DECLARED minimum *)
       else if hm then (if negb thm then 5 else if mx <? tmx then 6 else 0)
       else 0
-  | DMem mn hm mx, XMem buflen maxN _ _ =>
+  | DMem mn hm mx sh, XMem buflen maxN _ _ xsh =>
       if memoryBytesNumToPages buflen <? mn then 4            (* expected.Min > pages(len(Buffer)): the CURRENT size *)
       else if norm_max L mn hm mx <? maxN then 6              (* expected.Max < importedMemory.Max, both normalised *)
+      else if negb (Bool.eqb sh xsh) then 9                   (* expected.IsShared != importedMemory.Shared *)
       else 0
   | DGlobal m v, XGlobal m' v' =>
       if negb (Bool.eqb m m') then 7 else if negb (v =? v') then 8 else 0
@@ -82,14 +85,14 @@ Definition spec_of_xobj (x : xobj) : externtype :=
   match x with
   | XFunc p r => TFunc p r
   | XTable _ thm tmx tty tlen => TTable {| l_min := tlen; l_hasmax := thm; l_max := tmx |} tty
-  | XMem buflen _ hm mx => TMem {| l_min := buflen / 65536; l_hasmax := hm; l_max := mx |}
+  | XMem buflen _ hm mx sh => TMem {| l_min := buflen / 65536; l_hasmax := hm; l_max := mx |} sh
   | XGlobal m v => TGlobal m v
   end.
 Definition spec_of_idesc (d : idesc) : externtype :=
   match d with
   | DFunc p r => TFunc p r
   | DTable mn hm mx et => TTable {| l_min := mn; l_hasmax := hm; l_max := mx |} et
-  | DMem mn hm mx => TMem {| l_min := mn; l_hasmax := hm; l_max := mx |}
+  | DMem mn hm mx sh => TMem {| l_min := mn; l_hasmax := hm; l_max := mx |} sh
   | DGlobal m v => TGlobal m v
   end.
 
@@ -160,7 +163,7 @@ Inductive extern := EFunc (a : nat) | ETab (a : nat) | EMem (a : nat) | EGlob (a
 Inductive importdesc :=
 | IFunc (ty : nat)                                       (* index into the importer's type section *)
 | ITable (min : Z) (hasmax : bool) (max : Z) (et : Z)
-| IMem (min : Z) (hasmax : bool) (max : Z)
+| IMem (min : Z) (hasmax : bool) (max : Z) (shared : bool)
 | IGlobal (mut : bool) (w : Z).
 (* the exporter is named by its position in the sequence of instantiations; names are numbers *)
 Record import := { im_mod : nat; im_name : Z; im_desc : importdesc }.
@@ -173,7 +176,7 @@ Record modul := {
   md_imports : list import;
   md_funcs : list fdef;
   md_table : option (Z * bool * Z);                      (* funcref table: min, has max, max *)
-  md_mem : option (Z * bool * Z);
+  md_mem : option (Z * bool * Z * bool);                 (* min, has max, max, shared *)
   md_globals : list gdef;
   md_exports : list (Z * extern);                        (* name, module-local index *)
   md_elems : list (cexpr * list (option nat));           (* active, table 0: offset, function indices (None = ref.null) *)
@@ -185,7 +188,7 @@ Record lstore := {
   ls : store Spec;
   ls_g : list (bool * Z);                                (* per global address: mutable, width *)
   ls_t : list (Z * bool * Z * Z);                        (* per table address: declared min, has max, max, element type *)
-  ls_m : list (bool * Z);                                (* per memory address: has max, declared max *)
+  ls_m : list (bool * Z * bool);                         (* per memory address: has max, declared max, shared *)
   ls_x : list (option (list (Z * extern))) }.            (* per instantiation attempt: exports by store address; None = failed *)
 
 Definition empty_store : store Spec := Build_store Spec [] [] [] [] [] [].
@@ -201,7 +204,7 @@ Definition xobj_of (st : lstore) (e : extern) : option xobj :=
   | ETab a => match nth_error (ls_t st) a, nth_error (s_tabs (ls st)) a with
               | Some (mn, hm, mx, et), Some t => Some (XTable mn hm mx et (Z.of_nat (length t))) | _, _ => None end
   | EMem a => match nth_error (ls_m st) a, nth_error (s_mems (ls st)) a with
-              | Some (hm, mx), Some m => Some (XMem (mlen m) (mmax m) hm mx) | _, _ => None end
+              | Some (hm, mx, sh), Some m => Some (XMem (mlen m) (mmax m) hm mx sh) | _, _ => None end
   | EGlob a => match nth_error (ls_g st) a with Some (mu, w) => Some (XGlobal mu w) | None => None end
   end.
 
@@ -209,7 +212,7 @@ Definition idesc_of (m : modul) (d : importdesc) : idesc :=
   match d with
   | IFunc ty => let '(p, r) := nth ty (md_types m) ([], []) in DFunc p r
   | ITable mn hm mx et => DTable mn hm mx et
-  | IMem mn hm mx => DMem mn hm mx
+  | IMem mn hm mx sh => DMem mn hm mx sh
   | IGlobal mu w => DGlobal mu w
   end.
 
@@ -333,8 +336,8 @@ Definition new_func (m : modul) (ii : nat) (fd : fdef) : funcdef :=
 
 Definition new_global (s : store Spec) (imps : list nat) (g : gdef) : Z := modN (gd_w g) (eval_cexpr s imps (gd_init g)).
 
-Definition new_memory (L : Z) (d : Z * bool * Z) : memory :=
-  let '(mn, hm, mx) := d in {| mlen := MemoryPagesToBytesNum mn; mmax := norm_max L mn hm mx; mdata := [] |}.
+Definition new_memory (L : Z) (d : Z * bool * Z * bool) : memory :=
+  let '(mn, hm, mx, _) := d in {| mlen := MemoryPagesToBytesNum mn; mmax := norm_max L mn hm mx; mdata := [] |}.
 
 Definition export_addr (i : inst) (e : extern) : extern :=
   match e with
@@ -362,7 +365,7 @@ Definition allocate (L : Z) (st : lstore) (m : modul) (r : resolved) : lstore * 
     end in
   let '(mems, ma, mty) :=
     match md_mem m with
-    | Some d => (s_mems s ++ [new_memory L d], Some (length (s_mems s)), ls_m st ++ [(snd (fst d), snd d)])
+    | Some d => (s_mems s ++ [new_memory L d], Some (length (s_mems s)), ls_m st ++ [(snd (fst (fst d)), snd (fst d), snd d)])
     | None => (s_mems s, r_mem r, ls_m st)
     end in
   let i := {| i_funcs := r_funcs r ++ own_f; i_globals := r_globals r ++ own_g; i_mem := ma; i_tab := ta;
@@ -393,13 +396,13 @@ Definition valid_module (m : modul) : bool :=
   forallb (fun seg => valid_const ig 32 (fst seg)) (md_datas m).
 
 (* result classes of an instantiation: 0 ok; 98 the module is invalid (rejected by CompileModule);
-   1..8, 20, 21 link errors; 30 data segment out of range; 31 start function failed;
+   1..9, 20, 21 link errors; 30 data segment out of range; 31 start function failed;
    -3 the model ran out of fuel in start. 98 and the link errors leave the store untouched. *)
 Definition E_INVALID : Z := 98.
 Definition E_DATA : Z := 30.
 Definition E_START : Z := 31.
 Definition E_FUEL : Z := -3.
-Definition is_link_error (c : Z) : bool := ((1 <=? c) && (c <=? 8)) || (c =? 20) || (c =? 21).
+Definition is_link_error (c : Z) : bool := ((1 <=? c) && (c <=? 9)) || (c =? 20) || (c =? 21).
 
 (* [starter s fa]: run the start function; store afterwards and 0 (returned), 1 (trapped), 2 (out of fuel) *)
 (* store.go instantiate (order as of 9ab0d2d: active element segments, then active data segments, then start) *)
